@@ -14,8 +14,15 @@ const P: &str = "C11";
 pub fn gen(seed: u64, tier: Tier) -> ScenarioSpec {
     let mut rng = Rng::new(seed);
     let cfg = GenCfg { allow_large: tier == Tier::Thorough && rng.chance(1, 4), ..Default::default() };
-    let rec = gen::gen_recorder(&mut rng, &cfg);
+    // rare: a replay beyond 2^31 bytes read from a sparse stream (see C10)
+    let sparse = rng.chance(1, if tier == Tier::Thorough { 6000 } else { 2500 });
+    let cfg = if sparse { GenCfg { size: Some(gen::SizeClass::Tiny), ..Default::default() } } else { cfg };
+    let mut rec = gen::gen_recorder(&mut rng, &cfg);
+    let sparse_knobs: Vec<(&str, i64)> = if sparse { gen_sparse(&mut rng, &mut rec) } else { vec![] };
     let mut spec = gen::base_spec(P, "S5", seed, rec);
+    for (k, v) in sparse_knobs {
+        spec.knobs.insert(k.into(), v);
+    }
     spec.knobs.insert("schedules".into(), if tier == Tier::Thorough { 12 } else { 6 });
     spec.knobs.insert("sched_seed".into(), (rng.next_u64() >> 1) as i64);
     spec.compression = *rng.pick(&[Compression::None, Compression::Lz4, Compression::Zstd]);
@@ -27,11 +34,53 @@ pub fn expected_hash(bytes: &[u8]) -> String {
     format!("xxh3:{:016x}", xxhash_rust::xxh3::xxh3_64(bytes))
 }
 
+/// The > 2 GiB leg: the hash of `head ++ hole ++ tail`, computed by the harness in pieces, against the reader's.
+fn sparse_leg(spec: &ScenarioSpec, m: &recorder::Model, ctx: &mut Ctx) -> Result<(), Violation> {
+    let Some(sp) = sparse_setup(spec, m) else {
+        ctx.skip("sparse leg without its payload-table entry or without a place for the hole");
+        return Ok(());
+    };
+    let SparseFile { head, at, count, code, chunk, .. } = sp;
+    let tail = &m.bytes[at..];
+    let mut h = xxhash_rust::xxh3::Xxh3::new();
+    h.update(&head);
+    let mut ev = vec![0u8; 65536];
+    ev[0] = code;
+    for _ in 0..count {
+        h.update(&ev);
+    }
+    h.update(tail);
+    let want = format!("xxh3:{:016x}", h.digest());
+    ctx.probe(if count >= 32768 { "hash of a replay longer than 2^31 bytes" } else { "hash of a replay just below 2^31 bytes" });
+    ctx.fault("sparse_stream_bytes_gib", (count * 65536) >> 30);
+    for skip in [false, true] {
+        if skip && m.end.is_none() {
+            continue;
+        }
+        let site = format!("slippi::read(skip={},hash=true, > 2 GiB)", skip);
+        let (r, _, _) = read_slp_sparse(&head, tail, count, code, chunk, OptsSpec { skip_frames: skip, compute_hash: true });
+        let g = match r {
+            Res::Ok(g) => g,
+            Res::Err(e, _) => return Err(Violation::new(P, "unexpected-err", site, crate::report::short(&e, 200))),
+            Res::Caught(c) => return Err(caught_violation(P, &site, &c)),
+        };
+        if g.hash.as_deref() != Some(want.as_str()) {
+            return Err(Violation::new(P, "hash-mismatch", site, format!("got {:?}, the stream's bytes hash to {}", g.hash, want)));
+        }
+        ctx.check();
+    }
+    ctx.rep.nontrivial = true;
+    Ok(())
+}
+
 pub fn run(spec: &ScenarioSpec, ctx: &mut Ctx) -> Result<(), Violation> {
     let m = recorder::build(&spec.recorder);
     ctx.rep.sim_time_ns += m.sim_time_ns();
     shape_of_model(ctx, &m, spec);
     prelude(spec.knob("prelude"), spec.seed, &m, ctx);
+    if spec.knob("sparse_count") > 0 {
+        return sparse_leg(spec, &m, ctx);
+    }
     let want = expected_hash(&m.bytes);
     let edges = m.edges();
     let n = spec.knob("schedules").max(1) as usize;
